@@ -250,7 +250,7 @@ class _Continue(Exception):
 BUILTIN_TYPES = ('int', 'bool', 'bytes', 'bytearray', 'str', 'tuple', 'list', 'dict', 'set', 'frozenset', 'object', 'float', 'type')
 BUILTIN_FUNCS = ('len', 'max', 'min', 'range', 'abs', 'divmod', 'isinstance', 'sum', 'ord', 'chr', 'reversed', 'enumerate', 'zip',
                  'any', 'all', 'hex', 'pow', 'sorted', 'super', 'iter', 'next', 'callable', 'repr', 'issubclass', 'hasattr', 'getattr',
-                 'setattr', 'vars', 'format', 'bin', 'oct', 'round')
+                 'setattr', 'vars', 'format', 'bin', 'oct', 'round', 'map', 'staticmethod', 'classmethod')
 BUILTIN_EXCS = tuple(EXC_PARENTS) + ('BaseException',)
 
 EXT_PURE = {
@@ -518,7 +518,7 @@ class Evaluator(object):
             ok = {
                 int: ('bit_length', 'to_bytes', 'real', 'numerator', 'value'),
                 bytes: ('join', 'hex', 'startswith', 'endswith', 'decode', 'index', 'find', 'count', 'rjust', 'ljust', 'lstrip'),
-                VBuf: ('append', 'extend', 'pop', 'hex', 'insert', 'clear', 'copy', 'decode', 'startswith', 'endswith'),
+                VBuf: ('append', 'extend', 'pop', 'hex', 'insert', 'clear', 'copy', 'decode', 'startswith', 'endswith', 'ljust', 'rjust'),
                 str: ('format', 'encode', 'join', 'upper', 'lower', 'startswith', 'endswith', 'replace', 'strip', 'split'),
                 list: ('append', 'extend', 'pop', 'index', 'insert', 'reverse', 'copy', 'count'),
                 dict: ('get', 'keys', 'values', 'items', 'pop', 'setdefault'),
@@ -535,12 +535,14 @@ class Evaluator(object):
                 if not isinstance(v, VBuf) else NoEval('bytearray.%s is not modelled' % name)
         raise NoEval('attribute %s of %r' % (name, v))
 
-    def _class_attr(self, ci, name, expr):
+    def _class_attr(self, ci, name, expr, busy=()):
         key = (ci.key, name)
         if key in self.class_state:
             return self.class_state[key]
         fr = _Frame(self, FunctionInfo(_CLASSBODY, ci.module, ci), {}, None)
         fr.classbody = ci
+        fr.class_scope = ci
+        fr.class_scope_busy = tuple(busy) + (name,)
         if is_int_enum(ci):
             members = ci.enum_members()
             if name in members and isinstance(members[name], int):
@@ -670,7 +672,9 @@ class Evaluator(object):
         dparams = params[len(params) - len(defaults):] if defaults else []
         for name, d in zip(dparams, defaults):
             if name not in env:
-                env[name] = _Frame(self, fi, {}, None).ev(d)
+                dfr = _Frame(self, fi, {}, None)
+                dfr.class_scope = fi.cls             # a default is evaluated where the def stands: in the class body for a method
+                env[name] = dfr.ev(d)
         for ka, kd in zip(a.kwonlyargs, a.kw_defaults):
             if ka.arg in kw:
                 env[ka.arg] = kw.pop(ka.arg)
@@ -851,6 +855,12 @@ class Evaluator(object):
             return list(enumerate(self._iter(args[0]), *[_num(a) for a in args[1:]]))
         if n == 'zip':
             return list(zip(*[list(self._iter(a)) for a in args]))
+        if n in ('staticmethod', 'classmethod') and len(args) == 1 and not kwargs and isinstance(args[0], Func):
+            return args[0]
+        if n == 'iter' and len(args) == 1 and not kwargs:
+            return list(self._iter(args[0]))        # one pass over a finite sequence: a list iterates the same
+        if n == 'map' and len(args) >= 2 and not kwargs:
+            return [self._call(args[0], list(xs), {}) for xs in zip(*[list(self._iter(a)) for a in args[1:]])]
         if n == 'any':
             return any(self.truth(x) for x in self._iter(args[0]))
         if n == 'all':
@@ -924,6 +934,8 @@ class Evaluator(object):
                 return getattr(recv.tobytes(), name)(self._native(args[0]))
             if name == 'decode':
                 return recv.tobytes().decode(*[self._native(a) for a in args])
+            if name in ('ljust', 'rjust'):
+                return VBuf(getattr(recv.tobytes(), name)(*[self._native(a) for a in args]))       # a new bytearray, padded
         if isinstance(recv, bytes):
             if name == 'join':
                 parts = [self._native(x) for x in self._iter(args[0])]
@@ -1446,6 +1458,13 @@ class _Frame(object):
             return Builtin('exc:' + n)
         if n == 'NotImplemented':
             raise NoEval('NotImplemented')
+        ci = getattr(self, 'class_scope', None)
+        if ci is not None:
+            # an expression of the class body (class-level assignment, parameter default): names of the class body are in scope
+            if n in ci.methods:
+                return Func(ci.methods[n], None)
+            if n in ci.attrs and n not in getattr(self, 'class_scope_busy', ()):
+                return self.E._class_attr(ci, n, ci.attrs[n], busy=tuple(getattr(self, 'class_scope_busy', ())) + (n,))
         raise Raised('NameError', n)
 
     def ev_Attribute(self, node):
